@@ -1179,14 +1179,26 @@ class Checker:
         if real != impl:
             drift = self.first_difference(real, impl)
         if issues:
-            ids = {i[3] for i in issues}
-            if None not in ids and ids <= self.listed and drift is None:
-                for fid in ids:
+            # a listed finding is recognised by its region (the tag) AND by its modelled wrong behaviour on the
+            # observable concerned (the binding of that name / the exception class), not by the whole model
+            def as_modelled(issue):
+                fid = issue[3]
+                if fid is None or fid not in self.listed:
+                    return False
+                if fid == 'D1102':
+                    return 'crash' in impl and 'crash' in real and impl['crash'] == real['crash']
+                name = issue[4]
+                return 'names' in impl and 'names' in real and impl['names'].get(name) == real['names'].get(name)
+            if all(as_modelled(i) for i in issues):
+                for fid in {i[3] for i in issues}:
                     res.known.setdefault(fid, []).append({'ignore': ig, 'label': label})
                 res.count('known-finding')
+                if drift is not None and 'crash' not in real:
+                    res.drift.append({'input': inp if len(res.drift) < 3 else '(omitted)', 'difference': drift})
             else:
                 out = []
-                for what, exp, got, fid in issues:
+                for issue in issues:
+                    what, exp, got, fid = issue[:4]
                     v = {'what': what, 'input': inp, 'expected': exp, 'got': got}
                     res.violations.append(v)
                     out.append(v)
@@ -1252,11 +1264,11 @@ class Checker:
                 ok = got is not None and got[0] == 'C' and got[1] == b[1] and \
                     model.defined_names[name] is model.cells.get(b[1])
                 if not ok:
-                    issues.append(('defined name %s is not bound to its cell' % name, b, got, fid))
+                    issues.append(('defined name %s is not bound to its cell' % name, b, got, fid, name))
             else:
-                ok = got is not None and got[0] == 'R' and got[1] == b[1] and got[4] == b[2]
+                ok = got is not None and got[0] == 'R' and got[4] == b[2]      # the members; the spelling of address_str is not in the statement
                 if not ok:
-                    issues.append(('defined name %s is not bound to its range' % name, b, got, fid))
+                    issues.append(('defined name %s is not bound to its range' % name, b, got, fid, name))
         return issues
 
     @staticmethod
@@ -1471,7 +1483,7 @@ def run(ctx):
                 inp = data.get('input', data)
                 igs = [inp['ignore']] if 'ignore' in inp else ignore_lists(inp['workbook'], ctx.rng, thorough)
                 chk.check_workbook(inp['workbook'], igs, label=p.name)
-        for label, wb in fixed_workbooks():
+        for label, wb in ([] if os.environ.get('C11_SKIP_FIXED') else fixed_workbooks()):
             wb = json.loads(json.dumps(wb))
             chk.check_workbook(wb, ignore_lists(wb, ctx.rng, thorough), label=label)
     workers = int(os.environ.get('C11_WORKERS', '0')) or (12 if thorough else 4)
